@@ -23,20 +23,28 @@ CONSTANTS Keys, Plain, DefShapes, UseIdx
 NONE == "<none>"
 Nm == Keys \cup Plain
 Item(n, attr, text, sc, rep, kids) == [n |-> n, attr |-> attr, text |-> text, sc |-> sc, rep |-> rep, kids |-> kids]
-Leaf(n) == Item(n, "", NONE, FALSE, 1, <<>>)
+\* an item carries a sequence of attribute mentions <<name, value>>: .c is <<"class", "c">>, [p=1] is <<"p", "1">>
+NoA == <<>>
+Cls(v) == <<"class", v>>
+Leaf(n) == Item(n, NoA, NONE, FALSE, 1, <<>>)
 Defs == (IF "leaf" \in DefShapes THEN { <<Leaf(n)>> : n \in Nm } ELSE {})
-        \cup (IF "attr" \in DefShapes THEN { <<Item(n, "p", NONE, FALSE, 1, <<>>)>> : n \in Nm } ELSE {})
-        \cup (IF "text" \in DefShapes THEN { <<Item(n, "", "u", FALSE, 1, <<>>)>> : n \in Nm } ELSE {})
-        \cup (IF "child" \in DefShapes THEN { <<Item(n, "", NONE, FALSE, 1, <<Leaf(c)>>)>> : n \in Nm, c \in Nm } ELSE {})
+        \cup (IF "attr" \in DefShapes THEN { <<Item(n, <<<<"p", "1">>>>, NONE, FALSE, 1, <<>>)>> : n \in Nm } ELSE {})
+        \cup (IF "cls" \in DefShapes THEN { <<Item(n, <<Cls("e")>>, NONE, FALSE, 1, <<>>)>> : n \in Nm } ELSE {})
+        \cup (IF "text" \in DefShapes THEN { <<Item(n, NoA, "u", FALSE, 1, <<>>)>> : n \in Nm } ELSE {})
+        \cup (IF "child" \in DefShapes THEN { <<Item(n, NoA, NONE, FALSE, 1, <<Leaf(c)>>)>> : n \in Nm, c \in Nm } ELSE {})
         \cup (IF "siblings" \in DefShapes THEN { <<Leaf(a), Leaf(b)>> : a \in Nm, b \in Nm } ELSE {})
 Uses == << <<Leaf("k1")>>,
-           <<Item("k1", "", NONE, FALSE, 1, <<Leaf("k2")>>)>>,
-           <<Item("k1", "c", NONE, FALSE, 1, <<>>)>>,
-           <<Item("k1", "", "t", FALSE, 1, <<>>)>>,
-           <<Item("k1", "", NONE, FALSE, 2, <<>>)>>,
-           <<Item("k1", "", NONE, TRUE, 1, <<>>)>>,
-           <<Item("k1", "q", NONE, FALSE, 1, <<Leaf("y")>>)>>,
-           <<Leaf("y"), Item("k2", "c", "t", FALSE, 1, <<Leaf("k1")>>)>> >>
+           <<Item("k1", NoA, NONE, FALSE, 1, <<Leaf("k2")>>)>>,
+           <<Item("k1", <<Cls("c")>>, NONE, FALSE, 1, <<>>)>>,
+           <<Item("k1", NoA, "t", FALSE, 1, <<>>)>>,
+           <<Item("k1", NoA, NONE, FALSE, 2, <<>>)>>,
+           <<Item("k1", NoA, NONE, TRUE, 1, <<>>)>>,
+           <<Item("k1", <<<<"q", "2">>>>, NONE, FALSE, 1, <<Leaf("y")>>)>>,
+           <<Leaf("y"), Item("k2", <<Cls("c")>>, "t", FALSE, 1, <<Leaf("k1")>>)>>,
+           <<Item("k1", <<Cls("c"), Cls("d")>>, NONE, FALSE, 1, <<>>)>>,                          \* several class mentions
+           <<Item("k1", <<Cls("c"), <<"p", "3">>, Cls("d")>>, NONE, FALSE, 1, <<>>)>>,           \* class, overriding attribute, class
+           <<Item("k1", <<<<"q", "2">>, <<"q", "4">>>>, NONE, FALSE, 2, <<Leaf("y")>>)>>,         \* repeated attribute, repeater, child
+           <<Item("k2", <<Cls("c"), Cls("d"), Cls("c")>>, "t", FALSE, 1, <<>>)>> >>
 
 VARIABLES table, use
 vars == <<table, use>>
@@ -45,7 +53,9 @@ Next == use = 0 /\ use' \in UseIdx /\ UNCHANGED table
 Spec == Init /\ [][Next]_vars
 
 (* -------------------------------------------------------------- rendering *)
-AttrText(a) == CASE a = "" -> "" [] a = "c" -> ".c" [] a = "p" -> "[p=1]" [] a = "q" -> "[q=2]"
+RECURSIVE AttrText(_)
+AttrText(ms) == IF ms = <<>> THEN ""
+                ELSE (IF Head(ms)[1] = "class" THEN "." \o Head(ms)[2] ELSE "[" \o Head(ms)[1] \o "=" \o Head(ms)[2] \o "]") \o AttrText(Tail(ms))
 RECURSIVE Render(_)
 RenderItem(it) == it.n \o AttrText(it.attr) \o (IF it.text = NONE THEN "" ELSE "{" \o it.text \o "}")
                   \o (IF it.sc THEN "/" ELSE "") \o (IF it.rep > 1 THEN "*" \o ToString(it.rep) ELSE "")
@@ -54,8 +64,14 @@ Render(items) == IF items = <<>> THEN "" ELSE RenderItem(items[1]) \o (IF Len(it
 
 (* ---------------------------------------------------------------- machine *)
 InStack(st, df) == \E i \in 1..Len(st) : st[i] = df
-Entry(d, it) == [d |-> d, n |-> it.n, attrs |-> IF it.attr = "" THEN <<>> ELSE <<it.attr>>, text |-> it.text, sc |-> it.sc]
-AddAttr(attrs, a) == IF a = "" \/ \E i \in 1..Len(attrs) : attrs[i] = a THEN attrs ELSE Append(attrs, a)
+\* merge_attributes(): a repeated class is joined with a blank, any other repeated name keeps its first position and takes the last value
+AddMention(attrs, m) == IF \E i \in 1..Len(attrs) : attrs[i][1] = m[1]
+                        THEN [i \in 1..Len(attrs) |-> IF attrs[i][1] # m[1] THEN attrs[i]
+                                                      ELSE IF m[1] = "class" THEN <<m[1], attrs[i][2] \o " " \o m[2]>> ELSE m]
+                        ELSE Append(attrs, m)
+RECURSIVE AddAttr(_, _)
+AddAttr(attrs, ms) == IF ms = <<>> THEN attrs ELSE AddAttr(AddMention(attrs, Head(ms)), Tail(ms))
+Entry(d, it) == [d |-> d, n |-> it.n, attrs |-> AddAttr(<<>>, it.attr), text |-> it.text, sc |-> it.sc]
 Merge(e, it) == [e EXCEPT !.attrs = AddAttr(@, it.attr), !.text = IF it.text # NONE THEN it.text ELSE @, !.sc = @ \/ it.sc]
 RECURSIVE ExpItems(_, _, _), ExpItem(_, _, _)
 \* result [l: listing, md: deepest stack seen]
@@ -82,14 +98,13 @@ DepthBound == use # 0 => Result.md <= DistinctDefs
    the guard of the machine is what makes the two sides differ when the definition refers to itself. *)
 InPlace(it) == LET df == table[it.n] IN
                IF Len(df) = 1 /\ df[1].kids = <<>>
-               THEN <<[df[1] EXCEPT !.attr = IF @ = "" THEN it.attr ELSE @, !.text = IF it.text # NONE THEN it.text ELSE @,
+               THEN <<[df[1] EXCEPT !.attr = @ \o it.attr, !.text = IF it.text # NONE THEN it.text ELSE @,
                                     !.sc = @ \/ it.sc, !.rep = it.rep, !.kids = it.kids]>>
                ELSE <<>>
-SingleAttr(it) == ~(it.attr # "" /\ table[it.n][1].attr # "")         \* the model's items carry one attribute each
 AliasIsDefinition ==
     (use # 0 /\ Len(Uses[use]) = 1) =>
         LET it == Uses[use][1] IN
-        (it.n \in Keys /\ InPlace(it) # <<>> /\ SingleAttr(it) /\ table[it.n][1].n \notin Keys) =>
+        (it.n \in Keys /\ InPlace(it) # <<>> /\ table[it.n][1].n \notin Keys) =>
             ExpItems(InPlace(it), <<>>, 0).l = Result.l
 
 Dump == use # 0 => PrintT(<<"VEC", ToJson([t |-> [k \in Keys |-> Render(table[k])], abbr |-> Render(Uses[use]), out |-> Result.l, md |-> Result.md])>>)
